@@ -122,6 +122,10 @@ func errorFaults(rpc string) []*fault {
 		&fault{name: "plain-error", class: "plain-error", rpc: rpc, err: errors.New("plain backend failure " + secret), want: w5},
 		&fault{name: "context.DeadlineExceeded", class: "raw-context-deadline-error", rpc: rpc, err: context.DeadlineExceeded, want: want{exact: 504}},
 		&fault{name: "error-with-code-OK", class: "error-value-with-code-OK", rpc: rpc, err: okCodeErr{}, want: w5},
+		// the context's own errors as an RPC layer, an interceptor or net/url hands them on: still a timeout
+		&fault{name: "context.Canceled", class: "raw-context-canceled-error", rpc: rpc, err: context.Canceled, want: want{exact: 504}},
+		&fault{name: "wrapped-context.DeadlineExceeded", class: "wrapped-context-error", rpc: rpc, err: fmt.Errorf("rpc layer %s: %w", secret, context.DeadlineExceeded), want: want{exact: 504}},
+		&fault{name: "wrapped-context.Canceled", class: "wrapped-context-error", rpc: rpc, err: fmt.Errorf("rpc layer %s: %w", secret, context.Canceled), want: want{exact: 504}},
 	)
 	return out
 }
